@@ -18,7 +18,7 @@ CLAUSE_PROPERTY = {
     "fail_atomic": "C05",
     "reported": "C06", "acted_upon": "C06",
     "completion": "C07",
-    "contained": "C12", "msg_intact": "C13", "msg_unshared": "C13",
+    "contained": "C12", "msg_intact": "C13", "msg_unshared": "C13", "history_free": "C13",
     "envelope": "C14",
 }
 
@@ -289,7 +289,7 @@ def life_property(kind, clause):
     """which listed properties a failing clause of a life event speaks about"""
     if clause == "continuity":
         return ("C13", "C03")      # an object changed outside its own steps: shared content (C13) = a collateral edit (C03)
-    if clause in ("msg_intact", "msg_unshared"):
+    if clause in ("msg_intact", "msg_unshared", "history_free"):
         return ("C13",)
     if clause in PARSE_CLAUSES:
         return PARSE_CLAUSES[clause]
